@@ -8,5 +8,3 @@ import (
 
 func handlerOf(gw *protocol.Gateway) http.Handler { return http.HandlerFunc(gw.HandleGatewayProtocol) }
 
-func c10HTTPReplay(env *Env, rep *Report) {}
-func c10HTTP(env *Env, rep *Report) int   { return 0 }
